@@ -316,6 +316,7 @@ TIERS = {
     # (NChild, SrcLen, Susp, UseLock)
     # (NChild, SrcLen, Susp, UseLock, ExitSusp)
     # ... Closable)
+    "mini": [(2, 2, 1, True, 0, True), (2, 2, 1, True, 1, True), (2, 2, 1, True, 0, False), (3, 2, 0, False, 0, True)],   # when run on behalf of another property
     "quick": [(2, 2, 1, True, 0, True), (3, 2, 1, True, 0, True), (2, 2, 1, True, 1, True), (2, 2, 1, True, 0, False),
               (3, 1, 0, True, 1, True), (2, 2, 0, False, 0, True), (3, 2, 0, False, 0, True)],
     "thorough": [(2, 3, 2, True, 0, True), (3, 3, 2, True, 0, True), (3, 3, 1, True, 1, True), (3, 2, 2, True, 1, False),
@@ -487,7 +488,7 @@ def check(prop, tier, seed, into=None):
         drifted = [r for r in results if r["drift"]]
         clean = [r for r in results if not r["drift"]]
         tot["drift"] += len(drifted)
-        sample = clean if tier == "thorough" and len(clean) <= 60000 else rnd.sample(clean, min(len(clean), 3000 if tier == "quick" else 60000))
+        sample = clean if tier == "thorough" and len(clean) <= 60000 else rnd.sample(clean, min(len(clean), 1000 if tier == "mini" else 3000 if tier == "quick" else 60000))
         alltraces += drifted + sample
         for r in results:
             if not r["acct_ok"]:
@@ -497,7 +498,7 @@ def check(prop, tier, seed, into=None):
     if neg["ok"]:
         raise MachineryError("vacuity guard: Tee without lock and with a suspending source satisfies Complete")
     # 4. random schedules beyond the exhaustive bounds
-    nrand = 1500 if tier == "quick" else 20000
+    nrand = 300 if tier == "mini" else 1500 if tier == "quick" else 20000
     rjobs = []
     for i in range(nrand):
         n = rnd.choice([2, 3, 4, 5])
